@@ -121,7 +121,7 @@ fn broken(rng: &mut Rng) -> TextItem {
         while !text.is_char_boundary(pos) {
             pos -= 1;
         }
-        match rng.below(13) {
+        match rng.below(15) {
             0 => text.insert(pos, *rng.pick(&['@', '!', '%', '^', '&', '*', '+', '=', ';', '.', '[', ']', '\'', '"', '\\', '`', '~', '?', '|'])),
             1 => text.insert_str(pos, "$ "),
             2 => text.insert_str(pos, " /x "),
@@ -147,6 +147,13 @@ fn broken(rng: &mut Rng) -> TextItem {
                 } else {
                     text.push('$');
                 }
+            }
+            11 => {
+                // the text stops inside a comment or inside an attribute (no final newline)
+                while text.ends_with('\n') || text.ends_with(' ') {
+                    text.pop();
+                }
+                text.push_str(*rng.pick(&["\n// trailing comment without newline", " // é", "\n#[unterminated(attr", "\n#[", "\n#", " /"]));
             }
             10 => {
                 // an outer attribute whose brackets balance in number but not in kind (a lexical
